@@ -1,5 +1,5 @@
 """C13 - estimate, personalize and simulate leave the model and caller inputs untouched (ModelLifecycle.tla)."""
-from ..drivers import lifecycle
+from ..drivers import lifecycle, settings
 
 
 def run(ctx):
@@ -11,12 +11,18 @@ def run(ctx):
                 "(training data present?, individual latent values present?, population variables at prior modes, parameter "
                 "and population hashes, caller-owned table / settings / dict unchanged) must be the specification's, and "
                 "results carrying the same term <<call, params, inputs, seed>> must be bit-identical across histories. "
+                "Settings objects (Settings.tla): TLC checks Isolation, ReadOnlyOps, RoundTrip, FreshIsDefault, NestedMergeKeepsRest "
+                "on every history of 3 operations over 2 objects (construction with nested overrides, caller-side mutation, save, "
+                "hand-written files, load, algorithm creation); simulated histories are replayed on real AlgorithmSettings objects "
+                "comparing every object, the file, the algorithm's own copy and the shipped defaults after each operation. "
                 "Distinct = distinct call history.")
     ctx.assumptions = ["a re-fit is modelled as built: it continues from the latent values held in the model state",
                        "a re-fit on another cohort while latents of a different cohort are held is outside the domain"]
     lifecycle.run_design(ctx, max_calls=5 if q else 6)
     kinds = ["logistic_diag_src1"] if q else ["logistic_diag_src1", "linear_scalar_src1", "joint_src1"]
     lifecycle.run_replay(ctx, "C13", kinds, num=36 if q else 250, depth=7 if q else 8, seeds_set="{0}" if q else "{0, 1}")
+    # settings objects: construction / merge / mutation / save / load / algorithm creation (Settings.tla), spec -> code replay
+    settings.run(ctx, 60 if q else 600, 10)
     ctx.exhaustive = False
 
 
